@@ -69,8 +69,9 @@ StepOf(x) ==
                   rec == IF x.rc = 0 THEN [e |-> "AddBase", r |-> x.prer, b |-> x.preb, opt |-> x.opt, rc |-> x.rc, t |-> x.out, text |-> x.text, ro |-> ro]
                                      ELSE [e |-> "AddBase", r |-> x.prer, b |-> x.preb, opt |-> x.opt, rc |-> x.rc, ro |-> ro] IN
               R(PreCheck(x.prer, x.r) \o PreCheck(x.preb, x.b) \o V(rec)
-                \o FailIf(x.rc = 0 /\ x.out.own # 0, "C12", "a resolved URI shares its operands' text but claims to own it"),
-                IF x.rc = 0 THEN DoAddBaseTo(st, x.d, x.r, x.b, ValOf(x.out)) ELSE st)
+                ,
+                \* (a target that owns copies of its text is as good as one that shares its operands' ranges: the machine follows the flag)
+                IF x.rc # 0 THEN st ELSE IF x.out.own = 1 THEN Put(st, x.d, ValOf(x.out), TRUE, {}) ELSE DoAddBaseTo(st, x.d, x.r, x.b, ValOf(x.out)))
     [] x.e = "SRemoveBase" ->
          IF ~CanRemoveBase(st, x.d, x.s, x.b) THEN R(HarnessErr("remove-base not enabled"), st)
          ELSE IF x.fault # 0 THEN R(FaultFail(x), st)
@@ -81,7 +82,7 @@ StepOf(x) ==
                   rec == IF x.rc = 0 THEN [e |-> "RemoveBase", s |-> x.pres, b |-> x.preb, mode |-> x.mode, rc |-> x.rc, ref |-> x.out, text |-> x.text, ro |-> ro, leak |-> 0, backrc |-> 1]
                                      ELSE [e |-> "RemoveBase", s |-> x.pres, b |-> x.preb, mode |-> x.mode, rc |-> x.rc, ro |-> ro] IN
               R(PreCheck(x.pres, x.s) \o PreCheck(x.preb, x.b) \o V(rec),
-                IF x.rc = 0 THEN DoRemoveBaseTo(st, x.d, x.s, x.b, ValOf(x.out)) ELSE st)
+                IF x.rc # 0 THEN st ELSE IF x.out.own = 1 THEN Put(st, x.d, ValOf(x.out), TRUE, {}) ELSE DoRemoveBaseTo(st, x.d, x.s, x.b, ValOf(x.out)))
     [] x.e = "SFree" -> IF CanFree(st, x.s) THEN R(FaultFail(x), DoFree(st, x.s)) ELSE R(HarnessErr("free of an empty slot"), st)
     [] x.e = "SScribble" -> IF CanScribble(st, x.i) THEN R(<<>>, DoScribble(st, x.i)) ELSE R(HarnessErr("scribble of a dead buffer"), st)
     [] x.e = "SObserve" ->
